@@ -1,52 +1,42 @@
 #!/usr/bin/env python3
-"""bin/seed_matrix.py [names...]  -- for every /verif/seeded/<name>/patch.diff: apply to /repo, run the quick
-check of its property (and, with --all, every property), undo.  Writes seeded/matrix.json."""
-import json, os, subprocess, sys, glob, re
+"""bin/seed_matrix.py [--all] [names...]  -- for every /verif/seeded/<name>/patch.diff: apply it to a scratch copy of
+/repo's current tree, run the quick check of its property (with --all: of every property), drop the copy.
+Writes seeded/matrix.json.  /repo is only read (see bin/_matrix.py; bin/with_patch applies a patch to /repo itself)."""
+import json, os, sys, glob
 VERIF = os.path.dirname(os.path.dirname(os.path.abspath(__file__)))
 sys.path.insert(0, VERIF)
+sys.path.insert(0, os.path.join(VERIF, "bin"))
+import _matrix
+from rules import props
 args = [a for a in sys.argv[1:] if not a.startswith("--")]
 allp = "--all" in sys.argv
-from rules import props
 PROPS = sorted(props.registry())
-st = subprocess.run(["git", "-C", "/repo", "status", "--porcelain", "--untracked-files=no"], capture_output=True, text=True).stdout.strip()
-if st:
-    sys.exit("refusing: /repo has uncommitted changes")
 mpath = os.path.join(VERIF, "seeded", "matrix.json")
 matrix = json.load(open(mpath)) if os.path.exists(mpath) else {}
+items = []
 for d in sorted(glob.glob(os.path.join(VERIF, "seeded", "*"))):
     name = os.path.basename(d)
-    if not os.path.isdir(d) or (args and name not in args):
-        continue
+    if os.path.isdir(d) and (not args or name in args) and os.path.exists(os.path.join(d, "patch.diff")):
+        items.append((name, os.path.join(d, "patch.diff")))
+
+
+def done(name, res):
     prop = name.split("_")[0]
-    patch = os.path.join(d, "patch.diff")
-    r = subprocess.run(["git", "-C", "/repo", "apply", patch], capture_output=True, text=True)
-    if r.returncode != 0:
-        matrix[name] = {"error": "patch does not apply: " + r.stderr[-300:]}
-        print(name, "DOES NOT APPLY")
-        continue
-    res = {}
-    try:
-        todo = [p for p in (PROPS if allp else [prop]) if p in PROPS]
-        for p in (PROPS if allp else [prop]):
-            if p not in PROPS:
-                res[p] = {"exit": None, "note": "property not claimed"}
-        def one(p):
-            return p, subprocess.run([os.path.join(VERIF, "bin", "check"), p, "--no-evidence"], capture_output=True, text=True)
-        first = [one(todo[0])]   # warms the fact cache for this tree
-        from concurrent.futures import ThreadPoolExecutor
-        with ThreadPoolExecutor(8) as ex:
-            rest = list(ex.map(one, todo[1:]))
-        for p, c in first + rest:
-            keys = re.findall(r"^  key=(.*)$", c.stdout, re.M)
-            res[p] = {"exit": c.returncode, "violations": keys[:8]}
-            if c.returncode not in (0, 1):
-                res[p]["tail"] = (c.stdout + c.stderr)[-800:]
-    finally:
-        subprocess.check_call(["git", "-C", "/repo", "checkout", "--", "."])
+    if res is None:
+        matrix[name] = {"error": "patch does not apply"}
+        print(name, "DOES NOT APPLY", flush=True)
+        return
+    if not allp:
+        res = {p: v for p, v in res.items() if p == prop}
+    if prop not in PROPS:
+        res[prop] = {"exit": None, "note": "property not claimed"}
     caught = sorted(p for p, v in res.items() if v.get("exit") == 1)
     matrix[name] = {"property": prop, "caught_by": caught, "results": res}
-    print(name, "caught by", caught or "NOTHING", [v.get("violations") for p, v in res.items() if v.get("exit") == 1][:2])
+    print(name, "caught by", caught or "NOTHING", [v.get("violations")[:3] for p, v in sorted(res.items()) if v.get("exit") == 1][:2], flush=True)
+    for p, v in res.items():
+        if v.get("exit") == 2:
+            print("   ERROR in", p, v.get("tail", "")[-300:], flush=True)
+
+
+_matrix.run_many(items, None, on_done=done)
 json.dump(matrix, open(mpath, "w"), indent=1, sort_keys=True)
-# restore evidence of the unchanged tree
-for p in PROPS:
-    subprocess.run([os.path.join(VERIF, "bin", "check"), p], capture_output=True)
